@@ -32,6 +32,14 @@ func init() {
 		for i := 0; i < n; i++ {
 			auth, peer := r.Bytes(16), r.Bytes(16)
 			user := r.Bytes(r.Intn(20))
+			switch r.Intn(5) {
+			case 0:
+				user = []byte(fmt.Sprintf("DOM%d\\user%d", r.Intn(9), r.Intn(99))) // Windows style DOMAIN\user: the whole string is hashed
+			case 1:
+				user = []byte(fmt.Sprintf("a\\b\\c%d@realm.example", r.Intn(99)))
+			case 2:
+				user = []byte(fmt.Sprintf("user%d", r.Intn(999)))
+			}
 			var pw []byte
 			tag := "ascii"
 			switch i % 4 {
